@@ -88,14 +88,16 @@ def seed_unparseable(root):
 
 
 class C10Cfg:
-    def __init__(self, threshold, seed_bad=False, filters=None, bodies=("E1", "E2", "T1"), front="wsgi", paranoid=False):
+    def __init__(self, threshold, seed_bad=False, filters=None, bodies=("E1", "E2", "T1"), front="wsgi", paranoid=False, second_writer=False):
         self.threshold = threshold
         self.seed_bad = seed_bad
         self.filters = filters or list(FILTERS)
         self.bodies = list(bodies)
         self.front = front
         self.paranoid = paranoid
-        self.label = "threshold=%s%s%s/%s" % (threshold, "+unparseable" if seed_bad else "", "+paranoid" if paranoid else "", front)
+        # a second worker (own store cache, hence its own index) on the same directory also writes
+        self.second_writer = second_writer
+        self.label = "threshold=%s%s%s%s/%s" % (threshold, "+unparseable" if seed_bad else "", "+paranoid" if paranoid else "", "+second-writer" if second_writer else "", front)
 
     def make(self):
         return C10Sys(self)
@@ -115,6 +117,7 @@ class C10Sys:
             self.world = http.AioWorld(self.root, index_threshold=cfg.threshold, paranoid=cfg.paranoid)
         with http.twin_context():
             self.twin = http.WsgiWorld(self.root, index_threshold=NEVER)
+        self.writer_b = http.WsgiWorld(self.root, index_threshold=cfg.threshold, own_cache=True) if cfg.second_writer else None
         self.model = {}
         self.vios = {}
         self.obs = []
@@ -126,6 +129,8 @@ class C10Sys:
     def close(self):
         try:
             self.twin.stop()
+            if self.writer_b is not None:
+                self.writer_b.close()
             self.world.close()
         finally:
             shutil.rmtree(self.root, ignore_errors=True)
@@ -165,6 +170,8 @@ class C10Sys:
             ops.append(("put", nm, b))
         for nm in sorted(self.model):
             ops.append(("delete", nm))
+        if self.cfg.second_writer:
+            ops += [(k + "@b",) + tuple(rest) for (k, *rest) in ops if k in ("put", "delete")]
         for f in self.cfg.filters:
             ops.append(("q", f))
             ops.append(("qq", f))
@@ -201,9 +208,13 @@ class C10Sys:
         self.recording = check
         kind = op[0]
         info = {"outcome": kind, "success": False}
+        wr = self.world
+        if kind.endswith("@b"):
+            kind = kind[:-2]
+            wr = self.writer_b
         if kind == "put":
             _, nm, b = op
-            r = self.world.request("PUT", self.base + nm, {"Content-Type": B.CT_ICS}, BODIES[b])
+            r = wr.request("PUT", self.base + nm, {"Content-Type": B.CT_ICS}, BODIES[b])
             self.nreq += 1
             st = dav.effective_status(r)
             info["outcome"] = "put:%s" % st
@@ -212,7 +223,7 @@ class C10Sys:
                 info["success"] = True
         elif kind == "delete":
             _, nm = op
-            r = self.world.request("DELETE", self.base + nm)
+            r = wr.request("DELETE", self.base + nm)
             self.nreq += 1
             info["outcome"] = "delete:%s" % r.status
             if r.status == 204:
@@ -257,7 +268,8 @@ def run(tier, workers=None):
                 C10Cfg(0, seed_bad=True, filters=["vevent", "summary-defined"], bodies=("E1",)),
                 C10Cfg(0, filters=["range-after-paris", "freebusy-range", "range-jan"], bodies=("ETZ", "FB2", "E1")),
                 C10Cfg(1, filters=["location-defined", "priority-defined", "location-not-defined"], bodies=("EF", "E1")),
-                C10Cfg(0, filters=["float-range-utc", "float-range@tokyo-hit", "float-range@tokyo-miss"], bodies=("EFL", "E1"))]
+                C10Cfg(0, filters=["float-range-utc", "float-range@tokyo-hit", "float-range@tokyo-miss"], bodies=("EFL", "E1")),
+                C10Cfg(0, filters=["summary=alpha", "range-jan"], bodies=("E1", "E3"), second_writer=True)]
         depth = {0: 3, 1: 3}
     else:
         cfgs = [C10Cfg(0), C10Cfg(1), C10Cfg(2, filters=["vevent", "summary=beta", "range-feb", "todo-not-completed"]),
@@ -265,7 +277,8 @@ def run(tier, workers=None):
                 C10Cfg(1, front="aio", filters=["summary=alpha", "range-feb", "summary+no-location"]),
                 C10Cfg(1, filters=["range-after-paris", "freebusy-range", "range-jan", "vevent"], bodies=("ETZ", "FB2", "E1")),
                 C10Cfg(0, filters=["location-defined", "priority-defined", "location-not-defined", "vevent"], bodies=("EF", "E1", "E2")),
-                C10Cfg(1, filters=["float-range-utc", "float-range@tokyo-hit", "float-range@tokyo-miss", "vevent"], bodies=("EFL", "E1", "ETZ"))]
+                C10Cfg(1, filters=["float-range-utc", "float-range@tokyo-hit", "float-range@tokyo-miss", "vevent"], bodies=("EFL", "E1", "ETZ")),
+                C10Cfg(1, filters=["summary=alpha", "range-jan", "vevent"], bodies=("E1", "E3", "T1"), second_writer=True)]
         depth = {}
     tot = {"states": 0, "transitions": 0, "replays": 0, "requests": 0}
     per_cfg = []
@@ -302,6 +315,7 @@ def run(tier, workers=None):
     }
     return rep.finish("model_checking", cov, assumptions=[
         "reference = the implementation's own naive path on a second backend (threshold 10**6) over the same directory: a differential oracle, so defects of filter semantics (C11) cannot leak in",
+        "one configuration has a second worker (own store cache and index) writing to the same directory; the queried worker must follow",
         "queries with their own CALDAV:timezone (UTC+9) against floating times, next to queries in the server zone (TZ=UTC in the harness)",
         "objects: single VEVENT, one resource with two VEVENTs (RRULE master + RECURRENCE-ID override), a VTODO, optionally an unparseable .ics committed with git",
     ])
